@@ -10,7 +10,8 @@ from . import alpha
 from .core import REPO, VERIF, content, hexs, new_sandbox, rm, sha1, snapshot, write_file
 
 P = 16384
-SIZES = {0: 0, 1: 40000, 2: 70001, 3: 90000}     # piece counts at 16 KiB / 32 KiB: 3|2, 5|3, 6|3
+SIZES = {0: 0, 1: 40000, 2: 70001, 3: 90000,      # piece counts at 16 KiB / 32 KiB: 3|2, 5|3, 6|3
+         4: 20000000, 5: 40000600}                  # above the first / second threshold of the automatic piece length
 RELS = {"r/a": ["a"], "r/d/b": ["d", "b"], "r/d/c": ["d", "c"]}
 
 
@@ -44,14 +45,15 @@ def do_op(op, base, target, version, metafile, scratch, plen=1, alt=False, route
             creator = "TorrentFile" if version == 1 else ("TorrentAssembler", "TorrentFileV2", "TorrentFileHybrid")[
                 0 if not alt else (1 if version == 2 else 2)]
             if route == "lib":
+                # (plen 0: no piece length given - the automatic choice)
                 st = create_meta({"creator": creator, "version": version, "P": P * plen, "align": align and version == 1},
                                  tpath(base, target), metafile)
             else:
                 # through torrentfile.cli.execute: plain, with a tracker flag, or with a configuration
                 # file that names a tracker and a web seed
                 from torrentfile.cli import execute
-                argv = ["create", tpath(base, target), "-o", metafile, "--prog", "0", "--meta-version", str(version),
-                        "--piece-length", str(P * plen)]
+                argv = ["create", tpath(base, target), "-o", metafile, "--prog", "0", "--meta-version", str(version)] + (
+                    ["--piece-length", str(P * plen)] if plen else [])
                 if align and version == 1:
                     argv += ["--align"]
                 if route == "clitracker":
